@@ -74,6 +74,8 @@ def main(tier):
             got = fold(H.Evaluator(fx), h, [H.V(I, (H.V(E, (ns,)),))])
             tri(run, rule, "Instant(%d ns)" % ns, got, got == ("val", ns // 1_000_000), "epoch_milliseconds = %d" % (ns // 1_000_000),
                 "Instant(%d ns).epoch_milliseconds() = %s, floor(ns / 10^6) = %d" % (ns, got[1], ns // 1_000_000), h.loc)
+    from ..rules import extra as _extra
+    _extra.check_duration_field_tables(run, fx)
     units.report(run, fx, "C06")
     ranges.check_balance(run, fx)
     return run.finish(EXPLANATION)
